@@ -563,11 +563,14 @@ func vfParse(data []byte) ([]vfEntry, error) {
 		}
 		out = append(out, vfEntry{ID: id, Body: strings.Join(body, "\n")})
 	}
-	if !hadNL {
+	if !hadNL && !vfParseNoFinalNL {
 		return out, fmt.Errorf("file does not end with a newline")
 	}
 	return out, nil
 }
+
+// vfParseNoFinalNL: set by cases whose pre-existing file deliberately lacks the final newline (an editor trimmed it)
+var vfParseNoFinalNL bool
 
 func vfClip(s string) string {
 	if len(s) > 80 {
